@@ -6,3 +6,4 @@ for id in $(python3 -c "import json;print(' '.join(c['property_id'] for c in jso
   echo "$id rc=$rc $((e-s))s $(echo "$out" | grep -c '^VIOLATION') violations; $(echo "$out" | tail -1 | cut -c1-140)"
   [ $rc -ne 0 ] && echo "$out" | grep -E "what:|HARNESS" | head -5 | cut -c1-300
 done
+exit 0
